@@ -9,6 +9,13 @@
 //!   db-export = [npep mass…] [nion (pep mz)…]  then per B: [nfrag (pep mz)…] [nmin minv…]  then per query:
 //!               fragLo fragHi preLo preHi [cnt (pep mz)…]            (pairs sorted by (pep, mz bits))
 //!
+//! sortmode >= 2 is FASTA mode: `sortmode = 2 + 4*opts`, the (mass, seq) entries are PROTEINS (mass ignored)
+//! and the peptides come from the REAL `Parameters::digest` (= the first half of `Parameters::build`:
+//! enzyme digestion, static/variable modifications, decoy generation, `reorder_peptides`), followed by
+//! `build_from_peptides` for each B exactly as `Parameters::build` does. opts bits: 0 decoys, 1 variable M+15.9949,
+//! 2 variable S/T+79.9663, 3 static C+57.0215, 4-5 missed cleavages, 6 max_variable_mods = 2 (else 1),
+//! 7 min_len 3 (else 5), 8 variable peptide-N-term +42.0106.
+//!
 //! The index is the REAL one: synthetic `Peptide` values (all fields public) are sorted by mass
 //! (sortmode 0: stable `total_cmp` sort in the harness; 1: `Parameters::reorder_peptides`), then
 //! `Parameters { bucket_size: B, .. }.build_from_peptides(..)` — `Parameters` is constructed directly so
@@ -21,6 +28,9 @@ use super::Info;
 use crate::proto::{Case, Out, Rng, Tier, Toks};
 use sage_core::database::{binary_search_slice, EnzymeBuilder, IndexedDatabase, Parameters};
 use sage_core::enzyme::Position;
+use sage_core::fasta::Fasta;
+use sage_core::modification::{validate_mods, validate_var_mods};
+use std::collections::HashMap;
 use sage_core::ion_series::{IonSeries, Kind};
 use sage_core::mass::{monoisotopic, Tolerance, H2O};
 use sage_core::peptide::Peptide;
@@ -37,7 +47,10 @@ pub const INFO: Info = Info {
            partial / exactly full / B > #fragments) and queried with ~20 queries: precursor window everything / empty / \
            inverted / partial around a stored mass / edge exactly equal to a stored peptide mass; fragment window \
            around a stored fragment, edge exactly equal to a bucket's min_value, everything, empty; ppm, Da (and Pct \
-           precursor) tolerances; charge 1..4. dbinv: larger databases (up to 300 / 800 peptides, at most ~200 buckets), layout only. \
+           precursor) tolerances; charge 1..4. FASTA mode (quick 60+10, thorough 500+60 cases, digests with more than 8000 fragments skipped): 1-4 (6) generated proteins (K/R-rich, shared segments, palindromes, \
+           isobaric anagram peptides) through the REAL Parameters::digest with random decoys / variable M, S/T, N-term / static C \
+           / missed cleavages 0-2 / max_variable_mods 1-2, then build_from_peptides per B and the same queries. \
+           dbinv: larger databases (up to 300 / 800 peptides, at most ~200 buckets), layout only. \
            non-trivial = (bss) the window contains at least one and excludes at least one element; (page) some \
            query returns at least one but not all stored fragments; (dbinv) at least two buckets.",
     serial: false,
@@ -120,7 +133,23 @@ fn kinds_of(mask: usize) -> Vec<Kind> {
     KINDS.iter().enumerate().filter(|(i, _)| mask >> i & 1 == 1).map(|(_, k)| *k).collect()
 }
 
+fn fasta_of(d: &Desc) -> Fasta {
+    let mut text = String::new();
+    for (i, (_, s)) in d.peps.iter().enumerate() {
+        text.push_str(&format!(">sp|P{:04}|PROT{}\n{}\n", i, i, String::from_utf8_lossy(s)));
+    }
+    Fasta::parse(text, "rev_", fasta_opts(d) & 1 == 1)
+}
+
+fn fasta_opts(d: &Desc) -> usize {
+    (d.sortmode - 2) / 4
+}
+
 fn peptides_of(d: &Desc) -> Vec<Peptide> {
+    if d.sortmode >= 2 {
+        // the real digest: enzyme, modifications, decoys, reorder_peptides
+        return params(d, 1).digest(&fasta_of(d));
+    }
     let mut peps: Vec<Peptide> = d
         .peps
         .iter()
@@ -146,6 +175,49 @@ fn peptides_of(d: &Desc) -> Vec<Peptide> {
 }
 
 fn params(d: &Desc, b: usize) -> Parameters {
+    if d.sortmode >= 2 {
+        let o = fasta_opts(d);
+        let mut stat: HashMap<String, f32> = HashMap::new();
+        let mut var: HashMap<String, Vec<f32>> = HashMap::new();
+        if o >> 1 & 1 == 1 {
+            var.insert("M".into(), vec![15.9949]);
+        }
+        if o >> 2 & 1 == 1 {
+            var.insert("S".into(), vec![79.9663]);
+            var.insert("T".into(), vec![79.9663]);
+        }
+        if o >> 3 & 1 == 1 {
+            stat.insert("C".into(), 57.0215);
+        }
+        if o >> 8 & 1 == 1 {
+            var.insert("^".into(), vec![42.0106]);
+        }
+        return Parameters {
+            bucket_size: b,
+            enzyme: EnzymeBuilder {
+                missed_cleavages: Some((o >> 4 & 3).min(2) as u8),
+                min_len: Some(if o >> 7 & 1 == 1 { 3 } else { 5 }),
+                max_len: Some(30),
+                cleave_at: Some("KR".into()),
+                restrict: Some('P'),
+                c_terminal: Some(true),
+                semi_enzymatic: Some(false),
+            },
+            peptide_min_mass: 200.0,
+            peptide_max_mass: 6000.0,
+            ion_kinds: kinds_of(d.kinds),
+            min_ion_index: d.min_ion,
+            static_mods: validate_mods(Some(stat)),
+            variable_mods: validate_var_mods(Some(var)),
+            max_variable_mods: if o >> 6 & 1 == 1 { 2 } else { 1 },
+            decoy_tag: "rev_".into(),
+            generate_decoys: o & 1 == 1,
+            fasta: String::new(),
+            prefilter_chunk_size: 0,
+            prefilter: false,
+            prefilter_low_memory: false,
+        };
+    }
     Parameters {
         bucket_size: b,
         enzyme: EnzymeBuilder::default(),
@@ -329,6 +401,97 @@ fn gen_desc(rng: &mut Rng, max_pep: usize) -> Desc {
         peps.push((m, s));
     }
     Desc { sortmode, kinds, min_ion, peps }
+}
+
+const AA_WEIGHTED: &[u8] = b"KKKRRRMMSSTTCPAAGGLLVVEEDDFIQNWYH";
+
+/// a small FASTA: proteins over a K/R-rich alphabet (short tryptic peptides), with M/S/T/C for the
+/// modifications, shared segments between proteins (shared peptides) and palindromic segments (a reversed
+/// decoy equal to its target); `None` if the real digest rejects it (no peptide at all panics in sage)
+fn gen_fasta_desc(rng: &mut Rng, max_prot: usize, max_len: usize) -> Option<Desc> {
+    let nprot = 1 + rng.below(max_prot);
+    let mut prots: Vec<Vec<u8>> = Vec::new();
+    for _ in 0..nprot {
+        let len = 8 + rng.below(max_len - 7);
+        let mut s: Vec<u8> = Vec::new();
+        while s.len() < len {
+            match rng.below(10) {
+                0 if !prots.is_empty() => {
+                    // copy a segment of an earlier protein
+                    let p = &prots[rng.below(prots.len())];
+                    let a = rng.below(p.len());
+                    let b = (a + 3 + rng.below(12)).min(p.len());
+                    s.extend_from_slice(&p[a..b]);
+                }
+                1 => {
+                    // palindrome between two cleavage sites: XYZ..ZYX K
+                    let h: Vec<u8> = (0..2 + rng.below(4)).map(|_| *rng.pick(b"AGLVSTMEC")).collect();
+                    s.extend_from_slice(&h);
+                    s.extend(h.iter().rev());
+                    s.push(*rng.pick(b"KR"));
+                }
+                2 => {
+                    // isobaric neighbours: same composition, different order
+                    s.extend_from_slice(*rng.pick(&[&b"GAMSK"[..], b"AGMSK", b"MSGAK", b"SMAGR", b"TMLR", b"MTLR"]));
+                }
+                _ => s.push(*rng.pick(AA_WEIGHTED)),
+            }
+        }
+        prots.push(s);
+    }
+    let opts = rng.below(512);
+    let d = Desc {
+        sortmode: 2 + 4 * opts,
+        kinds: *rng.pick(&[0b010010usize, 0b010010, 0b010010, 0b100100, 0b111111]),
+        min_ion: *rng.pick(&[0usize, 1, 2, 2]),
+        peps: prots.into_iter().map(|s| (0.0f32, s)).collect(),
+    };
+    let dd = d.clone();
+    // keep the case line bounded: at most ~8000 stored fragments — larger digests are skipped
+    match std::panic::catch_unwind(move || {
+        let p = peptides_of(&dd);
+        (p.len(), ions_of(&dd, &p).len())
+    }) {
+        Ok((n, nfrag)) if n > 0 && nfrag <= 8000 => Some(d),
+        _ => None,
+    }
+}
+
+fn fasta_case(op: &'static str, rng: &mut Rng, d: &Desc, n_q: usize, max_pages: usize) -> Case {
+    let peps = peptides_of(d);
+    let nfrag = ions_of(d, &peps).len();
+    let bs: Vec<usize> = pick_bs(rng, nfrag).into_iter().map(|b| b.max(nfrag / max_pages)).collect();
+    let dbs: Vec<IndexedDatabase> = bs.iter().map(|b| build(d, &peps, *b)).collect();
+    let mut qt = QTags { tags: vec![] };
+    let qs: Vec<Query> = (0..n_q).map(|_| gen_query(rng, &dbs, &mut qt)).collect();
+    let nontrivial = if n_q == 0 {
+        bs.iter().any(|b| nfrag > *b)
+    } else {
+        qs.iter().any(|q| {
+            let r = search(&dbs[0], q).len();
+            r > 0 && r < nfrag
+        })
+    };
+    let masses: Vec<u32> = peps.iter().map(|p| p.monoisotopic.to_bits()).collect();
+    let mut dm = masses.clone();
+    dm.dedup();
+    let o = fasta_opts(d);
+    let mut c = Case::new(request(op, d, &bs, &qs))
+        .tag("db:fasta")
+        .tag_if(o & 1 == 1, "db:fasta-decoys")
+        .tag_if(peps.iter().any(|p| p.decoy), "db:fasta-has-decoy-peptides")
+        .tag_if(peps.iter().any(|p| p.modifications.iter().any(|m| *m != 0.0) || p.nterm.is_some()), "db:fasta-modified-peptides")
+        .tag_if(dm.len() < masses.len(), "db:duplicate-peptide-masses")
+        .tag_if(bs.iter().any(|b| nfrag % b != 0), "db:last-bucket-partial")
+        .tag_if(bs.iter().any(|b| *b > nfrag), "db:B>fragments")
+        .tag_if(nontrivial && n_q > 0, "page:some-query-partial")
+        .nontrivial(nontrivial);
+    qt.tags.sort();
+    qt.tags.dedup();
+    for t in qt.tags {
+        c = c.tag(t);
+    }
+    c
 }
 
 fn pick_bs(rng: &mut Rng, nfrag: usize) -> Vec<usize> {
@@ -579,6 +742,17 @@ pub fn gen(rng: &mut Rng, tier: Tier, emit: &mut dyn FnMut(Case)) {
             c = c.tag(t);
         }
         emit(c);
+    }
+    // ---------------- page / dbinv on FASTA-built databases (real digest: mods, decoys, reorder_peptides)
+    let (n_fa, n_fa_inv, max_prot, max_plen) = if quick { (60, 10, 4, 50) } else { (500, 60, 6, 80) };
+    for i in 0..(n_fa + n_fa_inv) {
+        if let Some(d) = gen_fasta_desc(rng, max_prot, max_plen) {
+            if i < n_fa {
+                emit(fasta_case("page", rng, &d, if quick { 12 } else { 20 }, 400));
+            } else {
+                emit(fasta_case("dbinv", rng, &d, 0, 200));
+            }
+        }
     }
     // directed: rejected configurations (panic is the expected output class)
     {
